@@ -279,6 +279,20 @@ class C03Case:
             if dep_files:
                 for k in link_keys:
                     self.must_edges.setdefault(k, set()).update(dep_files)
+            if re.search(r'includes=\[[^\]]*\bxhdr\b', st.text):
+                # an explicitly passed header file of the source tree
+                own = {'src/' + q for q in re.findall(
+                    r"'([^']+\.c)'", st.text.split('includes=')[0])}
+                if '[gen' in st.text.split('includes=')[0]:
+                    own |= self.files_of_ref('gen[0]') | \
+                        self.files_of_ref('gen')
+                for k in link_keys:
+                    for f in g.steps[k]['reads']:
+                        ok = g.producer.get(f)
+                        if ok and f.endswith('.o') and \
+                           g.steps[ok]['reads'] & own:
+                            self.must_edges.setdefault(ok, set()).add(
+                                'src/extra_hdr/explicit.h')
             if 'gen[1]' in st.text and 'includes=' in st.text:
                 # an explicitly passed generated header: every object of
                 # this target depends on it, included or not
